@@ -53,6 +53,12 @@ func loopConfigs(thorough bool, faults bool) []*loop.Config {
 			}
 			add(false, "orphan-in-transfer/"+tag, o, ab, []loop.Seed{{1: "in_transfer"}, {2: ""}})
 			add(false, "spread-3-shards/"+tag, o, ab, []loop.Seed{{1: ""}, {2: ""}, {}})
+			if head == 0 {
+				// three shards that must all stay (min = max = 3), the middle one cannot be drained forward
+				om := o
+				om.MinShard, om.MaxShard = 3, 3
+				add(idle != 0, "packed-min3/"+tag, om, []loop.T{tg(1, 90, 90, true), tg(2, 40, 40, true), tg(3, 40, 40, true)}, []loop.Seed{{1: ""}, {2: "", 3: ""}, {}})
+			}
 		}
 	}
 	if thorough {
@@ -62,7 +68,7 @@ func loopConfigs(thorough bool, faults bool) []*loop.Config {
 			{Name: "fresh-1-shard/budget-2", Opt: o, Targets: ab, Shards: []loop.Seed{{}}},
 			{Name: "pending-transfer/budget-2", Opt: o, Targets: ab, Shards: []loop.Seed{{1: "in_transfer", 2: ""}, {1: ""}}},
 		} {
-			c2.BudgetW, c2.BudgetF, c2.DownAsFault = 2*bw, 2*bf, faults
+			c2.BudgetW, c2.BudgetF, c2.DownAsFault, c2.MoreFaults = 2*bw, 2*bf, faults, faults
 			out = append(out, c2)
 		}
 	}
@@ -96,6 +102,10 @@ func c05LoopConfigs(thorough bool) []*loop.Config {
 		}
 		out = append(out, &loop.Config{Name: "move-pending/" + tag, Opt: o, Targets: ab, Shards: []loop.Seed{{1: "in_transfer", 2: ""}, {1: ""}}, Inflight: true, BudgetD: d})
 		out = append(out, &loop.Config{Name: "move-about-to-start/" + tag, Opt: o, Targets: abc, Shards: []loop.Seed{{1: "", 2: "", 3: ""}, {}}, Inflight: true, BudgetD: d})
+		if idle != 0 {
+			// a scale-down move: the tail shard's only target fits the front shard
+			out = append(out, &loop.Config{Name: "scale-down-move/" + tag, Opt: o, Targets: ab, Shards: []loop.Seed{{2: ""}, {1: ""}}, Inflight: thorough, BudgetD: d})
+		}
 	}
 	return out
 }
